@@ -287,6 +287,7 @@ def run(chk):
     raise AnalysisError('only %d scalar UDF implementations recognised' % n_scalar)
 
   K.dialect_entangles(chk, 'C20-R3', engines=('sqlite',))
+  K.no_memo_decorators(chk, 'C20-R3', ['common/sqlite3_logica.py'])
 
   chk.rule('C20-R4', 'SQLite function / infix templates format without error '
            'for every admissible argument count', min_instances=20)
